@@ -18,7 +18,7 @@ import (
 const c19SDL = `
 type Query { x: Int }
 type Subscription { w(p: Int, s: String, u: Int): Ev }
-type Ev { f0: Int f1: Int f2: Int f3: Int }
+type Ev { f0: Int f1: Int f2: Int f3: Int k: Int }
 `
 
 type regLog struct {
@@ -55,6 +55,45 @@ func (s *hsub) Unsubscribe() {
 	s.log.clean = append(s.log.clean, s.uid)
 	s.log.mu.Unlock()
 }
+
+// gsub is one Subscriber value behind several subscriptions (a connection that subscribes more than once
+// to a topic, each time with its own selection): Match is the connection's, a message is handed to the
+// subscription it was made for (told by the alias u<uid> the request puts into its selection), and a
+// clean-up call cannot tell for which subscription it is made: it is logged under the connection (1000+pattern+1).
+type gsub struct {
+	pat     int
+	members map[int]*hsub
+	log     *regLog
+}
+
+func (g *gsub) Match(id string) bool { return g.pat < 0 || id == "e"+strconv.Itoa(g.pat) }
+func (g *gsub) Unsubscribe() {
+	g.log.mu.Lock()
+	g.log.clean = append(g.log.clean, 1000+g.pat+1)
+	g.log.mu.Unlock()
+}
+func (g *gsub) Send(v interface{}) error {
+	m, _ := v.(map[string]interface{})
+	rest := map[string]interface{}{}
+	var h *hsub
+	for k, x := range m {
+		if strings.HasPrefix(k, "u") {
+			uid, _ := strconv.Atoi(k[1:])
+			h = g.members[uid]
+			continue
+		}
+		rest[k] = x
+	}
+	if h == nil {
+		g.log.mu.Lock()
+		g.log.del = append(g.log.del, sx.L("0", sx.L("unaddressed"), "1"))
+		g.log.mu.Unlock()
+		return nil
+	}
+	return h.Send(rest)
+}
+
+var c19Share = false
 
 // msgOf canonicalises a delivered message: (field index, value) sorted by index.
 func msgOf(v interface{}) sx.S {
@@ -93,6 +132,9 @@ type evObj struct {
 
 func (e *evObj) Resolve(f *ggql.Field, _ map[string]interface{}) (interface{}, error) {
 	i, err := strconv.Atoi(strings.TrimPrefix(f.Name, "f"))
+	if f.Name == "k" {
+		return 0, nil
+	}
 	if err != nil || i >= len(e.vals) {
 		return nil, fmt.Errorf("no field %s", f.Name)
 	}
@@ -118,7 +160,8 @@ func evOf(vals sx.S) *evObj {
 }
 
 type subRootObj struct {
-	log *regLog
+	log    *regLog
+	groups map[int]*gsub // share mode: pattern -> the connection subscribed to it
 }
 
 func (s *subRootObj) Resolve(f *ggql.Field, args map[string]interface{}) (interface{}, error) {
@@ -131,6 +174,15 @@ func (s *subRootObj) Resolve(f *ggql.Field, args map[string]interface{}) (interf
 	h := &hsub{uid: int(u), pat: int(p), log: s.log}
 	for _, c := range sc {
 		h.sched = append(h.sched, c == '1')
+	}
+	if s.groups != nil {
+		g := s.groups[h.pat]
+		if g == nil {
+			g = &gsub{pat: h.pat, members: map[int]*hsub{}, log: s.log}
+			s.groups[h.pat] = g
+		}
+		g.members[h.uid] = h
+		return ggql.NewSubscription(g, f, args), nil
 	}
 	return ggql.NewSubscription(h, f, args), nil
 }
@@ -173,6 +225,10 @@ func c19Exec(input sx.S) (obs sx.S) {
 		switch sx.Head(o) {
 		case "reuse":
 			reuse = true
+		case "share":
+			sro.groups = map[int]*gsub{}
+			c19Share = true
+			defer func() { c19Share = false }()
 		case "sub":
 			var res map[string]interface{}
 			if reuse {
@@ -238,6 +294,9 @@ func subRequest(subs []sx.S) string {
 			sched += x.(string)
 		}
 		fmt.Fprintf(&b, " a%d: w(p: %d, s: \"%s\", u: %d) {", i, sx.Int(sl[2]), sched, sx.Int(sl[1]))
+		if c19Share && sx.Int(sl[1]) != 9999 {
+			fmt.Fprintf(&b, " u%d: k", sx.Int(sl[1]))
+		}
 		for _, f := range sx.List(sl[3]) {
 			fmt.Fprintf(&b, " f%d", sx.Int(f))
 		}
@@ -271,6 +330,9 @@ func subRequestVars(subs []sx.S) (string, map[string]interface{}) {
 		vars[fmt.Sprintf("s%d", i)] = sched
 		vars[fmt.Sprintf("u%d", i)] = sx.Int(sl[1])
 		fmt.Fprintf(&body, " a%d: w(p: $p%d, s: $s%d, u: $u%d) {", i, i, i, i)
+		if c19Share {
+			fmt.Fprintf(&body, " u%d: k", sx.Int(sl[1]))
+		}
 		for j, f := range sx.List(sl[3]) {
 			fmt.Fprintf(&body, " f%d", sx.Int(f))
 			if j == 0 && sx.Int(sl[1])%3 == 0 {
@@ -388,6 +450,10 @@ func c19Gen(r *rand.Rand, tier string) []Case {
 		if i%4 >= 2 {
 			ops = append(ops, sx.L("reuse"))
 		}
+		if i%8 == 1 || i%8 == 6 {
+			// subscribers of one pattern are one Go value (a connection subscribing several times)
+			ops = append(ops, sx.L("share"))
+		}
 		if i%2 == 0 { // registry-heavy histories: several live subscribers before anything else happens
 			for k := 3 + r.Intn(4); k > 0; k-- {
 				uid++
@@ -427,6 +493,8 @@ func c19Tags(ops []sx.S, kind string) []string {
 		switch sx.Head(o) {
 		case "reuse":
 			reuse = true
+		case "share":
+			tags = append(tags, "one-subscriber-behind-several-subscriptions")
 		case "sub":
 			sub = true
 			if reuse {
@@ -479,7 +547,7 @@ func c19Valid(input sx.S) bool {
 	for _, o := range sx.List(input)[1:] {
 		ol := sx.List(o)
 		switch sx.Head(o) {
-		case "reuse":
+		case "reuse", "share":
 			if len(ol) != 1 {
 				return false
 			}
